@@ -48,7 +48,7 @@ CLAIMED = {
     },
     "C10": {
         "technique": "Coq proof (iteration shape and containment from the safety invariant; exact growth of the slices for uniform requests) + correspondence + exactness predicate on uniform histories",
-        "text": "C10_iter_shape / C10_live_contained / C10_slices_disjoint; byte-exact clause: C10_uniform_alloc_exact / C10_uniform_reset / C10_uniform_history_exact / C10_exact_predicate (one alignment between MIN_ALIGN and 16, sizes multiples of it: every allocation grows the slices by exactly its size on every path and for every allocator answer). " + ARENA_TEXT + "Every fifth history of the driver is uniform and is checked with sp_iter_exact (slice bytes = bytes allocated since the last reset). C10_uniform_history_exact lifts this to every history of uniform allocations and resets from a fresh arena. Partial: failed initialisers inside uniform histories are decided by the driver and C11's rewind theorem. Source tie: C10_source_chunk_parts (the slice ChunkFooter::as_raw_parts reports, parsed from lib.rs on every run: finger and footer address minus finger) / C10_model_lists_source_parts / C10_source_frames (both iterators' next, their constructors: start at the current footer, stop at the sentinel, follow prev).",
+        "text": "C10_iter_shape / C10_live_contained / C10_slices_disjoint; byte-exact clause: C10_uniform_alloc_exact / C10_uniform_reset / C10_uniform_history_exact / C10_exact_predicate (one alignment between MIN_ALIGN and 16, sizes multiples of it: every allocation grows the slices by exactly its size on every path and for every allocator answer). " + ARENA_TEXT + "Every fifth history of the driver is uniform and is checked with sp_iter_exact (slice bytes = bytes allocated since the last reset). C10_uniform_history_exact lifts this to every history of uniform allocations and resets from a fresh arena. Partial: failed initialisers inside uniform histories are decided by the driver and C11's rewind theorem. Source tie: C10_source_chunk_parts (the slice ChunkFooter::as_raw_parts reports, parsed from lib.rs on every run: finger and footer address minus finger) / C10_model_lists_source_parts / C10_source_frames (both iterators' next, their constructors: start at the current footer, stop at the sentinel, follow prev). C10_source_raw_iteration (ChunkRawIter::next, call after call, assembled from the source's own end test, as_raw_parts and step to the previous footer: over a chunk list of any length the items are q_iter_chunks, newest first, ending at the sentinel).",
         "design_ref": "DESIGN.md §6 C10",
     },
     "C11": {
